@@ -231,6 +231,82 @@ GrammarSpec gen_grammar(Rng &r) {
   return g;
 }
 
+// ------------------------------------------------------------------ grammar families (common idioms with seeded shape)
+// chain: FOLLOW information must travel through a chain of "X : t Y" rules declared against the direction of
+// propagation; items: a list of items of several kinds that share a middle part, so that equal (set, terminal,
+// lookahead) triples recur with different origins; nest: brackets around a shared inner list.
+GrammarSpec gen_family_grammar(Rng &r) {
+  GrammarSpec g;
+  int fam = (int)r.below(3);
+  auto T = [&](const char *n, int c) { g.terms.push_back({n, c}); };
+  auto Rl = [&](const std::string &lhs, std::vector<std::string> rhs, bool anode) {
+    RuleDef rd;
+    rd.lhs = lhs;
+    rd.rhs = rhs;
+    if (anode && !rhs.empty()) {
+      rd.has_anode = true;
+      rd.anode = "f" + std::to_string(g.rules.size());
+      rd.cost = r.range(0, 3);
+      rd.has_transl = true;
+      for (size_t i = 0; i < rhs.size(); i++) if (r.chance(3, 4)) rd.transl.push_back((int)i);
+    } else if (!rhs.empty()) { rd.has_transl = true; rd.transl.push_back((int)r.below(rhs.size())); }
+    g.rules.push_back(rd);
+  };
+  int base = r.range(1, 60);
+  if (fam == 0) {
+    g.tag = "fam-chain";
+    int d = r.range(2, 5);
+    T("s", base); T("x", base + 1); T("a", base + 2);
+    for (int i = 0; i <= d; i++) g.terms.push_back({"k" + std::to_string(i), base + 3 + i});
+    // S : s A | s Nd x ; N1 : k1 A ; Ni : ki N(i-1) ; A : a     (declared top-down: propagation runs bottom-up)
+    Rl("S", {"s", "A"}, r.chance(1, 2));
+    Rl("S", {"s", "N" + std::to_string(d), "x"}, r.chance(1, 2));
+    std::vector<int> order;
+    for (int i = 1; i <= d; i++) order.push_back(i);
+    if (r.chance(1, 2)) std::reverse(order.begin(), order.end());
+    for (int i : order) {
+      if (i == 1) Rl("N1", {"k1", "A"}, r.chance(1, 2));
+      else Rl("N" + std::to_string(i), {"k" + std::to_string(i), "N" + std::to_string(i - 1)}, r.chance(1, 2));
+    }
+    Rl("A", {"a"}, r.chance(1, 2));
+    if (r.chance(1, 3)) Rl("A", {"a", "A"}, true);
+  } else if (fam == 1) {
+    g.tag = "fam-items";
+    int kinds = r.range(2, 4);
+    T("a", base); T("b", base + 1); T("c", base + 2); T("d", base + 3);
+    for (int i = 0; i < kinds; i++) g.terms.push_back({"h" + std::to_string(i), base + 10 + i});
+    bool right = r.chance(1, 2);
+    if (right) { Rl("L", {"I", "L"}, true); Rl("L", {"I"}, false); }
+    else { Rl("L", {"L", "I"}, true); Rl("L", {"I"}, false); }
+    for (int i = 0; i < kinds; i++) {
+      std::vector<std::string> rhs = {"h" + std::to_string(i), "M", "c"};
+      for (int j = 0; j < i; j++) rhs.push_back("d");
+      Rl("I", rhs, r.chance(2, 3));
+    }
+    Rl("M", {"a", "b"}, r.chance(1, 2));
+    if (r.chance(1, 2)) Rl("M", {"a", "M", "b"}, true);
+    if (r.chance(1, 3)) Rl("I", {"error", "c"}, false);
+  } else {
+    g.tag = "fam-nest";
+    T("l", base); T("r", base + 1); T("e", base + 2); T("q", base + 3); T("m", base + 4);
+    Rl("S", {"B"}, false);
+    Rl("B", {"l", "Q", "r"}, true);
+    Rl("B", {"l", "B", "r"}, true);
+    Rl("B", {"B", "m", "B"}, r.chance(1, 2));
+    Rl("Q", {"e"}, false);
+    Rl("Q", {"Q", "q", "e"}, true);
+    if (r.chance(1, 2)) Rl("Q", {}, false);
+  }
+  g.strict = r.chance(3, 4) ? 1 : 0;
+  for (auto &t : g.terms) g.codes.push_back(t.code);
+  if (r.chance(1, 2)) {
+    bool ok = true;
+    for (auto &rd : g.rules) if (!rd.has_anode && rd.transl.size() > 1) ok = false;
+    if (ok) { g.desc = grammar_to_desc(g); g.text = true; }
+  }
+  return g;
+}
+
 std::vector<int> gen_sentence(Rng &r, const GrammarSpec &g, int max_len) {
   std::vector<int> out;
   if (g.rules.empty()) return out;
@@ -241,7 +317,8 @@ std::vector<int> gen_sentence(Rng &r, const GrammarSpec &g, int max_len) {
   struct Item { std::string sym; int depth; };
   std::vector<Item> stack;
   stack.push_back({g.rules[0].lhs, 0});
-  int budget = 400;
+  int depth_limit = max_len > 24 ? max_len / 2 : 5;
+  int budget = 400 + 20 * max_len;
   while (!stack.empty() && budget-- > 0 && (int)out.size() < max_len) {
     Item it = stack.back();
     stack.pop_back();
@@ -249,7 +326,17 @@ std::vector<int> gen_sentence(Rng &r, const GrammarSpec &g, int max_len) {
     if (tc != tcode.end()) { out.push_back(tc->second); continue; }
     auto b = by.find(it.sym);
     if (b == by.end()) continue; // "error" or undefined nonterminal
-    const RuleDef *rd = it.depth > 5 ? b->second[0] : b->second[(size_t)r.below(b->second.size())];
+    const RuleDef *rd;
+    if (it.depth > depth_limit) { // finish: the rule with the fewest nonterminals (the first such)
+      rd = b->second[0];
+      size_t best = ~(size_t)0;
+      for (const RuleDef *c : b->second) {
+        size_t nn = 0;
+        for (auto &sy : c->rhs) if (by.count(sy)) nn++;
+        if (nn < best) { best = nn; rd = c; }
+      }
+    } else
+      rd = b->second[(size_t)r.below(b->second.size())];
     for (int i = (int)rd->rhs.size() - 1; i >= 0; i--) stack.push_back({rd->rhs[(size_t)i], it.depth + 1});
   }
   return out;
@@ -278,12 +365,14 @@ Pool make_pool(uint64_t pool_seed) {
     if (r.chance(2, 3)) p.good.push_back(g);
   int ngen = r.range(8, 14);
   for (int i = 0; i < ngen; i++) p.good.push_back(gen_grammar(r));
+  int nfam = r.range(2, 4);
+  for (int i = 0; i < nfam; i++) p.good.push_back(gen_family_grammar(r));
   for (auto &g : handwritten_bad())
     if (r.chance(1, 2)) p.bad.push_back(g);
   if (p.bad.empty()) p.bad.push_back(handwritten_bad()[0]);
   for (auto &g : p.good) {
     std::vector<std::vector<int>> ins;
-    if (g.tag != "gen") {
+    if (g.tag != "gen" && g.tag.compare(0, 4, "fam-") != 0) {
       for (auto &hi : hand_inputs())
         if (g.tag == hi.tag)
           for (auto &s : hi.ins) {
